@@ -1030,35 +1030,40 @@ pub fn run_once(setup: &Setup, opts: &RunOpts) -> Run {
         shell.close_fd(Fd(0));
         shell.set_fd(Fd(0), body).ok().unwrap();
         drop(st);
-        let fsys = Rc::new(Concurrent::new(VirtualSystem {
+        let fsys = VirtualSystem {
             state: Rc::clone(&state),
             process_id: Pid(3),
-        }));
+        };
         let chunks = chunks.clone();
-        let runner = Rc::clone(&fsys);
+        // The writer is a bare future on the raw simulated system (no run loop of
+        // its own): it writes one chunk, yields to the scheduler, writes the next.
         let feeder_task: Task = Box::pin(async move {
-            let inner = Rc::clone(&fsys);
-            let task = async move {
-                use yash_env::system::Exit;
-                use yash_env::system::concurrency::WriteAll;
-                for c in chunks {
-                    let _ = inner.write_all(Fd(1), &c).await;
-                    // yield between chunks so the reader may run in between
-                    let mut yielded = false;
-                    std::future::poll_fn(|cx| {
-                        if yielded {
-                            Poll::Ready(())
-                        } else {
-                            yielded = true;
-                            cx.waker().wake_by_ref();
-                            Poll::Pending
-                        }
-                    })
-                    .await;
+            use yash_env::system::{Exit, Write};
+            for c in chunks {
+                let mut rest: &[u8] = &c;
+                while !rest.is_empty() {
+                    match fsys.write(Fd(1), rest).await {
+                        Ok(n) => rest = &rest[n..],
+                        Err(_) => break,
+                    }
                 }
-                inner.exit(ExitStatus::SUCCESS).await;
-            };
-            runner.run_virtual(task).await
+                let mut yielded = false;
+                std::future::poll_fn(|cx| {
+                    if yielded {
+                        Poll::Ready(())
+                    } else {
+                        yielded = true;
+                        cx.waker().wake_by_ref();
+                        Poll::Pending
+                    }
+                })
+                .await;
+            }
+            {
+                use yash_env::system::Close;
+                let _ = fsys.close(Fd(1));
+            }
+            drop(fsys.exit(ExitStatus::SUCCESS));
         });
         // spawned after the shell task below so that the shell is task 0
         sched.tasks.borrow_mut().push(None); // placeholder for task 0
